@@ -244,7 +244,7 @@ package cache
 //@ func cacheJanitor.evict
 //@   nopanic
 //@   ghost callbacks-only
-//@   ghost callsite-requires removeEntry jsize > targetSize
+//@   ghost callsite-requires [C13] removeEntry jsize > targetSize
 //@   assigns cache. map_ atomic ghost:mapsum ghost:fsinode ghost:jexp ghost:jsize
 //@   ensures [C13] jsize <= old(jsize)
 //@   ensures [C13] old(jsize) * 5 <= maxCacheBytes * 4 && maxCacheBytes >= 0 && maxCacheBytes <= 1125899906842624 ==> jsize == old(jsize)
@@ -274,7 +274,7 @@ package cache
 //@ props C13 C14 C15 C16
 //@ func cacheJanitor.cleanExpiredEntries
 //@   nopanic
-//@   ghost callsite-requires removeEntry jexp(arg_key) < now
+//@   ghost callsite-requires [C13] removeEntry jexp(arg_key) < now
 //@   loop 1 invariant len(keysToRemove) >= 0
 //@   loop 2 invariant rangeidx <= len(keysToRemove)
 
